@@ -242,6 +242,9 @@ def harness_bin(release=False):
     return os.path.join(HARNESS, "target", "release" if release else "debug", "gvharness")
 
 
+MAX_HANG_RESTARTS = 25
+
+
 def _harness_limits():
     """resource limits of one harness process: a change that makes the library allocate without bound is
     stopped at 8 GB of address space instead of exhausting the machine"""
@@ -278,6 +281,12 @@ def harness_run(mode, cases_file, release=False, timeout=1800, extra=None):
             done = len(re.findall(r"^end$", out, flags=re.M))
             pending = pending[done:]
             if not pending:
+                return 0, "".join(all_out), "".join(all_err)
+            if rounds > MAX_HANG_RESTARTS:
+                # every restart is one expired watchdog: with this many hangs the verdict is settled and the rest
+                # of the sweep would only cost hours (each hanging call burns its full time limit)
+                all_err.append("\n[driver] %d watchdog expiries: the remaining %d cases were not run\n"
+                               % (rounds, len(pending)))
                 return 0, "".join(all_out), "".join(all_err)
             continue
         # the process died (memory limit, abort, signal, wall-clock limit) inside one case: keep the complete
